@@ -60,7 +60,7 @@ inductive Ev where
   | removePack (p : Nat)
   | removeIndex (i : Nat)
   | removeSnap (s : Nat)
-deriving Repr, Inhabited
+deriving Repr, Inhabited, DecidableEq
 
 def apply (r : Repo) : Ev → Repo
   | .savePack p bs => { r with packs := (p, bs) :: r.packs }
@@ -162,13 +162,6 @@ def unindexedPacks (tr : List Ev) : List Nat :=
 `savePacker` is a three-instruction program per finished packer; the uploader pool runs several of
 them concurrently, so the instructions of different packers interleave (the `schedule`). -/
 
-/-- instructions of `savePacker` / `StorePack` for one pack -/
-inductive Instr where
-  | upload     -- r.be.Save(ctx, h, rrd)
-  | store      -- mi.storePack(id, blobs): into the in-memory, not yet final index
-  | saveFull   -- mi.saveFullIndex: finalizeFullIndexes ; SaveIndex each
-deriving DecidableEq, Repr
-
 /-- one `savePacker` call: pack id, blobs, and the oracle for `index.Full` at its `saveFullIndex`
     together with the id the index file gets if it is saved -/
 structure PackJob where
@@ -176,15 +169,16 @@ structure PackJob where
   blobs : List Blob
   full : Bool
   iid : Nat
-  pc : Nat := 0          -- next instruction: 0 upload, 1 store, 2 saveFull, 3 done
 deriving Repr
 
 structure WState where
   jobs : List PackJob
+  pc : Nat → Nat              -- per job: next instruction 0 upload, 1 store, 2 saveFull, 3 done
   pending : List IndexEntry   -- packs in the in-memory non-final index (stored, not yet in a saved index file)
-  out : List Ev               -- backend operations so far (reverse order)
-  failed : Bool := false
-deriving Repr
+  out : List Ev               -- backend operations so far (newest first)
+  failed : Bool
+
+def setPc (w : WState) (j v : Nat) : WState := { w with pc := fun k => if k = j then v else w.pc k }
 
 /-- run the next instruction of job `j`; `fail` = the backend operation of this instruction
     returns an error (after retries) -/
@@ -192,26 +186,27 @@ def stepJob (w : WState) (j : Nat) (fail : Bool) : WState :=
   match w.jobs[j]? with
   | none => w
   | some job =>
-    let bump := fun (w : WState) => { w with jobs := w.jobs.set j { job with pc := job.pc + 1 } }
-    let abort := fun (w : WState) => { w with jobs := w.jobs.set j { job with pc := 3 }, failed := true }
-    if job.pc == 0 then
-      if fail then abort w
-      else bump { w with out := .savePack job.pid job.blobs :: w.out }
-    else if job.pc == 1 then
-      bump { w with pending := (job.pid, job.blobs) :: w.pending }
-    else if job.pc == 2 then
+    if w.pc j = 0 then
+      -- err = r.be.Save(ctx, h, rrd); if err != nil { return err }
+      if fail then { setPc w j 3 with failed := true }
+      else setPc { w with out := .savePack job.pid job.blobs :: w.out } j 1
+    else if w.pc j = 1 then
+      -- mi.storePack(id, blobs)
+      setPc { w with pending := (job.pid, job.blobs) :: w.pending } j 2
+    else if w.pc j = 2 then
+      -- mi.saveFullIndex: finalizeFullIndexes, SaveIndex each
       if job.full && !w.pending.isEmpty then
-        if fail then abort w
-        else bump { w with out := .saveIndex job.iid w.pending.reverse :: w.out, pending := [] }
-      else bump w
+        if fail then { setPc w j 3 with failed := true }
+        else setPc { w with out := .saveIndex job.iid w.pending.reverse :: w.out, pending := [] } j 3
+      else setPc w j 3
     else w
 
-/-- the uploader pool: a schedule of (job index, does its backend op fail) -/
+/-- the uploader pool: a schedule of (job index, does its backend operation fail) -/
 def runJobs (w : WState) : List (Nat × Bool) → WState
   | [] => w
   | (j, f) :: s => runJobs (stepJob w j f) s
 
-def allDone (w : WState) : Bool := w.jobs.all fun j => j.pc == 3
+def allDone (w : WState) : Bool := (List.range w.jobs.length).all fun k => w.pc k == 3
 
 /-- `Repository.flush` after the packers were flushed and the uploader pool was waited for:
     `idx.Flush` saves the remaining in-memory index (one file; id `fid`) -/
@@ -221,12 +216,11 @@ def flushIndex (w : WState) (fid : Nat) (fail : Bool) : WState :=
   else { w with out := .saveIndex fid w.pending.reverse :: w.out, pending := [] }
 
 /-- `Archiver.Snapshot`: `WithBlobUploader(fn ; flush)`, and only if that returned nil,
-    `SaveSnapshot`. Returns the backend trace in order. -/
+    `SaveSnapshot`. errgroup: any failed `savePacker` makes `wg.Wait` return the error; flush is
+    only reached when all `savePacker` calls have returned. Returns the backend trace in order. -/
 def backupRun (jobs : List PackJob) (sched : List (Nat × Bool)) (fid : Nat) (flushFails : Bool)
     (sid : Nat) (sn : Snap) (snapFails : Bool) : List Ev :=
-  let w := runJobs { jobs := jobs, pending := [], out := [] } sched
-  -- errgroup: any failed job makes wg.Wait return the error; flush is only reached when all
-  -- savePacker calls have returned
+  let w := runJobs { jobs := jobs, pc := fun _ => 0, pending := [], out := [], failed := false } sched
   if w.failed || !allDone w then w.out.reverse
   else
     let w := flushIndex w fid flushFails
